@@ -308,6 +308,25 @@ func c53Build() *c53World {
 			w.addUpdate(c53UpdSpec{name: n("fwrongp"), period: p, signer: g(p - 1), sigPeriod: p, next: f(p + 1), proven: f(p + 1), count: 512, forged: true})
 		}
 	}
+	// score product: {non-finalized, finalized (valid finality branch)} x signer count {1, thr-1, thr, 2/3-1, 2/3, all}
+	// x next committee {genuine, other}. Below the threshold the other committee is the attacker's F (such an update
+	// must never be stored, finalized header or not); from the threshold on it is the alternative A2 that the genuine
+	// committee then has properly signed. Full product at period 1, finalized sub-threshold attacker updates everywhere.
+	for _, name := range c53ScoreOps(true) {
+		sp := c53ParseScore(name)
+		if _, exists := w.upd[name]; exists {
+			continue
+		}
+		next := g(sp.period + 1)
+		if sp.other {
+			next = f(sp.period + 1)
+			if sp.count >= c53Thr {
+				next = "A2"
+			}
+		}
+		w.addUpdate(c53UpdSpec{name: name, period: sp.period, signer: g(sp.period), sigPeriod: sp.period, next: next, proven: next,
+			count: sp.count, finalized: sp.fin, forged: sp.count < c53Thr})
+	}
 	w.addUpdate(c53UpdSpec{name: "gfin1", period: 1, signer: "G1", sigPeriod: 1, next: "G2", proven: "G2", count: 400, finalized: true})
 	w.addUpdate(c53UpdSpec{name: "gfinlow1", period: 1, signer: "G1", sigPeriod: 1, next: "G2", proven: "G2", count: 320, finalized: true}) // below supermajority: not "finalized"
 	w.addUpdate(c53UpdSpec{name: "glate3", period: 3, signer: "G3", sigPeriod: 3, next: "G4", proven: "G4", count: 400, future: true})
@@ -366,6 +385,73 @@ func c53Build() *c53World {
 		add("late", fut, fut.Slot+1, g(p), 512, true, w.sign(fut, g(p), fut.Slot+1, 512))
 	}
 	return w
+}
+
+type c53ScoreSpec struct {
+	fin    bool
+	count  int
+	other  bool
+	period int
+}
+
+var c53ScoreCounts = []int{1, c53Thr - 1, c53Thr, params.SyncCommitteeSupermajority - 1, params.SyncCommitteeSupermajority, params.SyncCommitteeSize}
+
+// c53ScoreName names the update with the given score attributes; three combinations already exist under older names.
+func c53ScoreName(sp c53ScoreSpec) string {
+	if !sp.fin && sp.count == c53Thr-1 {
+		if sp.other {
+			return fmt.Sprintf("flow%d", sp.period)
+		}
+		return fmt.Sprintf("glow%d", sp.period)
+	}
+	if !sp.fin && sp.count == c53Thr && !sp.other {
+		return fmt.Sprintf("gmin%d", sp.period)
+	}
+	k, n := "N", "G"
+	if sp.fin {
+		k = "F"
+	}
+	if sp.other {
+		n = "X"
+	}
+	return fmt.Sprintf("s%s%d%s@%d", k, sp.count, n, sp.period)
+}
+
+func c53ParseScore(name string) (sp c53ScoreSpec) {
+	for _, x := range c53ScoreSpecs(true) {
+		if c53ScoreName(x) == name {
+			return x
+		}
+	}
+	panic("c53: not a score update: " + name)
+}
+
+// c53ScoreSpecs: the full product at period 1; at the other periods finalized updates signed by 1 and threshold-1
+// members proving the attacker's committee (thorough: also proving the genuine one).
+func c53ScoreSpecs(thorough bool) (out []c53ScoreSpec) {
+	for _, fin := range []bool{false, true} {
+		for _, count := range c53ScoreCounts {
+			for _, other := range []bool{false, true} {
+				out = append(out, c53ScoreSpec{fin, count, other, 1})
+			}
+		}
+	}
+	for _, p := range []int{0, 2, 3} {
+		for _, count := range []int{1, c53Thr - 1} {
+			out = append(out, c53ScoreSpec{true, count, true, p})
+			if thorough {
+				out = append(out, c53ScoreSpec{true, count, false, p})
+			}
+		}
+	}
+	return out
+}
+
+func c53ScoreOps(thorough bool) (names []string) {
+	for _, sp := range c53ScoreSpecs(thorough) {
+		names = append(names, c53ScoreName(sp))
+	}
+	return names
 }
 
 // ---------------------------------------------------------------------------
@@ -586,7 +672,7 @@ type c53Op struct {
 	next string // committee supplied with an update ("" = nil)
 }
 
-func c53Alphabet(w *c53World, lazyVerify bool, full bool) []c53Op {
+func c53Alphabet(w *c53World, lazyVerify bool, full bool, scores bool) []c53Op {
 	var ops []c53Op
 	add := func(o c53Op) { ops = append(ops, o) }
 	for _, cp := range []string{"cp1", "cp2"} {
@@ -639,9 +725,22 @@ func c53Alphabet(w *c53World, lazyVerify bool, full bool) []c53Op {
 	add(c53Op{name: "checkpoint(cpbadbranch1)", kind: "cp", id: "cpbadbranch1"})
 	add(c53Op{name: "fix(1,zero)", kind: "fix", p: 1, id: ""})
 	insert("glate3", "G4")
+	if scores {
+		have := map[string]bool{}
+		for _, o := range ops {
+			have[o.name] = true
+		}
+		for _, name := range c53ScoreOps(full) {
+			if n := fmt.Sprintf("insert(%s,%s)", name, w.upd[name].Next); !have[n] {
+				insert(name, w.upd[name].Next)
+			}
+		}
+	}
 	if full {
 		for p := 0; p < c53MaxP; p++ {
-			insert(fmt.Sprintf("gmin%d", p), fmt.Sprintf("G%d", p+1))
+			if p != 1 || !scores {
+				insert(fmt.Sprintf("gmin%d", p), fmt.Sprintf("G%d", p+1))
+			}
 			insert(fmt.Sprintf("g+%d", p), "")
 		}
 		insert("gfinlow1", "G2")
@@ -1011,7 +1110,7 @@ func (s *c53Sys) Key() string {
 
 func c53Explore(r *mc.R, name string, lazy, full bool, depth int, init ...string) {
 	w := c53GetWorld()
-	ops := c53Alphabet(w, lazy, full)
+	ops := c53Alphabet(w, lazy, full, !lazy || full)
 	names := make([]string, len(ops))
 	for i, o := range ops {
 		names[i] = o.name
@@ -1066,6 +1165,7 @@ func TestVerif_C53(t *testing.T) {
 		r.Rule("BFS over all sequences (up to the depth bound, de-duplicated by model state [+ deserialized-committee cache in the lazy run]) of: " +
 			"CheckpointInit (genuine, alternative-chain, 2 forged), addFixedCommitteeRoot(p) p=0..4 (+alternative root, zero root), addCommittee(p) genuine/alternative/attacker, " +
 			"Validate+InsertUpdate of genuine updates (3 scores, finalized, with/without/with the wrong next committee, future), of a properly signed alternative chain (reorg candidates: equal/better/finalized score) " +
+			"the score product at period 1 {non-finalized, finalized with valid finality branch} x signers {1, thr-1, thr, 341, 342, 512} x next committee {genuine, attacker F below the threshold / alternative A2 from the threshold on}, finalized 1- and thr-1-signer attacker updates at every period, " +
 			"and of 7 forged families per period (attacker-signed, threshold-1 signers, wrong merkle branch, inflated bitmask, signature slot in another period, wrong period's committee, low-signer genuine), " +
 			"deleteFixedCommitteeRootsFrom, Reset [, reload], in any order incl. descending periods; after every op (eager run) or as explicit ops verify(p) (lazy run) a matrix of ~20 signed headers per period " +
 			"(genuine/attacker/alternative/neighbour-period committee x {thr-1,thr,512} signers, inflated, tampered, period-boundary, future) is verified through VerifySignedHeader and HeadTracker.validate")
